@@ -6,5 +6,6 @@ CONSTANTS
   Unbounded = 1000
   Thresh = 3
   CapMode = "min"
+  OnSignal = "return"
 CONSTRAINT Bound
-INVARIANTS NoOversleep CapRespected
+INVARIANTS NoOversleep CapRespected WakeNotSleptOn
